@@ -331,7 +331,7 @@ func muxRunScenario(line string) string {
 			sid64, _ := strconv.ParseUint(f[2], 10, 32)
 			st := r.handles[s][uint32(sid64)]
 			if st == nil {
-				ret = "r4:0:-"
+				ret = "r6:0:-"
 				break
 			}
 			done := make(chan string, 1)
@@ -352,7 +352,7 @@ func muxRunScenario(line string) string {
 			kk, _ := strconv.Atoi(f[3])
 			st := r.handles[s][uint32(sid64)]
 			if st == nil {
-				ret = "r4:0:-"
+				ret = "r6:0:-"
 				break
 			}
 			if r.hasPendingRead(s, uint32(sid64)) {
@@ -416,7 +416,7 @@ func muxRunScenario(line string) string {
 			sid64, _ := strconv.ParseUint(f[2], 10, 32)
 			st := r.handles[s][uint32(sid64)]
 			if st == nil {
-				ret = "r4:0:-"
+				ret = "r6:0:-"
 				break
 			}
 			done := make(chan string, 1)
